@@ -17,7 +17,8 @@ ID = 'C20'
 LEVEL = 'exploration'
 BUDGET = {'quick': 3000, 'thorough': 12000}
 RULE = ("Hypothesis-generated (modulo, initdef, optional out-of-range persistent value, "
-        "sequence of <=12 inc/dec/put/reset/put-without-value/unknown events with amounts "
+        "sequence of <=12 inc/dec/put/reset/put-without-value/unknown events (also carrying the data items of "
+        "another block's output event - previous, value, trigger - or other unrelated items) with amounts "
         "from small, negative, big-integer and quarter-grid float pools); thorough adds all "
         "sequences of length <=6 over the 10-operation alphabet {inc,dec,put}x{-3,1,2}+reset "
         "for modulo in {None,7}. Non-trivial = sequence with >=3 arithmetic steps in which "
@@ -59,6 +60,28 @@ def number(allow_float, allow_big):
     return st.one_of(opts)
 
 
+EXTRAS = [
+    {'previous': None, 'value': 'A', 'trigger': 'output'},
+    {'previous': 3, 'value': 4, 'trigger': 'output', 'orig_source': 'x'},
+    {'value': 99},
+    {'foo': 'bar', 'repeat': 2, 'count': 5},
+    {'amount_': 7, 'modulo': 3, 'initdef': 1},
+]
+
+
+def x_items(op):
+    """data items of an 'x' operation: the extra items, overridden by the operation's own argument"""
+    _, kind, arg, idx = op
+    data = dict(EXTRAS[idx])
+    if kind == 'put':
+        data['value'] = num(arg) if arg is not None else data.get('value', 0)
+        if isinstance(data['value'], str):
+            data['value'] = 0
+    elif arg is not None and kind != 'reset':
+        data['amount'] = num(arg)
+    return data
+
+
 @st.composite
 def cases(draw):
     modulo = draw(st.sampled_from(MODULI))
@@ -75,6 +98,10 @@ def cases(draw):
         st.just(['putnoval']),
         st.just(['bogus']),
         st.tuples(st.just('inc_extra'), n).map(list),   # extra data items are ignored
+        # any event with the data items of an output event of another block (previous, value, trigger)
+        # or other unrelated items: ['x', kind, amount/value or None, index into EXTRAS]
+        st.tuples(st.just('x'), st.sampled_from(['inc', 'dec', 'reset', 'put']), st.one_of(st.none(), n),
+                  st.integers(0, len(EXTRAS) - 1)).map(list),
     )
     ops = draw(st.lists(op, min_size=0, max_size=12))
     return {'modulo': modulo, 'initdef': initdef, 'restore': restore, 'ops': ops}
@@ -138,6 +165,8 @@ def execute(case):
                             r = edzed.ExtEvent(cnt, kind).send(amount=num(op[1]))
                     elif kind == 'inc_extra':
                         r = edzed.ExtEvent(cnt, 'inc').send(amount=num(op[1]), foo='bar', value=99)
+                    elif kind == 'x':
+                        r = edzed.ExtEvent(cnt, op[1]).send(**x_items(op))
                     elif kind == 'put':
                         r = edzed.ExtEvent(cnt, 'put').send(num(op[1]))
                     elif kind == 'reset':
@@ -202,6 +231,15 @@ def execute(case):
         if kind in ('inc', 'dec', 'inc_extra'):
             amount = Fraction(1) if op[1] is None else frac(op[1])
             raw = value + amount if kind != 'dec' else value - amount
+        elif kind == 'x':
+            items = x_items(op)
+            if op[1] == 'put':
+                raw = Fraction(items['value'])
+            elif op[1] == 'reset':
+                raw = init
+            else:
+                amount = Fraction(items['amount']) if 'amount' in items else Fraction(1)
+                raw = value + amount if op[1] == 'inc' else value - amount
         elif kind == 'put':
             raw = frac(op[1])
         elif kind == 'reset':
